@@ -888,6 +888,15 @@ func (e *Env) evalCall(n *Call) *Value {
 			return e.fail("tag() of non-interface")
 		}
 		return mathVal(v.L[0])
+	case "stdlib_type":
+		// the dynamic type of this interface value is declared outside the module (standard library)
+		v := e.eval(n.Args[0])
+		if len(v.L) != 2 {
+			return e.fail("stdlib_type() of non-interface")
+		}
+		g.decl("(declare-fun stdtag (Int) Bool)")
+		g.stdTagUsed = true
+		return boolVal("(stdtag " + v.L[0] + ")")
 	case "ref":
 		v := e.eval(n.Args[0])
 		return mathVal(v.L[0])
@@ -1432,6 +1441,13 @@ func (g *Gen) recordHeap(st *State, sigTerms []string) {
 // finalAxioms instantiates every heap-dependent axiom at every recorded heap.
 func (g *Gen) finalAxioms() []string {
 	out := append([]string{}, g.specAxioms...)
+	if g.stdTagUsed {
+		for _, k := range sortedKeys(g.typeIDs) {
+			if g.nonStdTags[g.typeIDs[k]] {
+				out = append(out, fmt.Sprintf("(not (stdtag %d))", g.typeIDs[k]))
+			}
+		}
+	}
 	seen := map[string]bool{}
 	for _, a := range out {
 		seen[a] = true
